@@ -206,8 +206,6 @@ def run(ctx):
     for snap, j, (hi, si, lv, depth, run) in zip(progs_to_judge, J, where):
         ctx.evaluations += 1
         g, base, steps, expect = meta[hi]
-        if semcheck.triggers(snap).get("repeated_var_query"):
-            continue
         vs = semcheck.verdict(snap, j, run) or []
         if depth > 0:
             nontriv.add(hi)
